@@ -94,6 +94,13 @@ def oracle_one(case: Any, dump: Any) -> List[Dict[str, Any]]:
         return [{'kind': 'abort', 'via': None, 'what': 'the run aborts: %s' % dump['exc']}]
     fn = P.fullnames(case)
     objects, scopes = dump['objects'], dump['scopes']
+    seen = dump.get('order_seen', [])
+
+    def before(mi: int, r: Any) -> bool:
+        """was module mi analysed (started) before the re-exporter of r? (then a name copied from the defining module
+        by a star import is the pre-move name)"""
+        a, b = fn[mi], fn[r['R']]
+        return a in seen and b in seen and seen.index(a) < seen.index(b)
     # the defining module exports the name itself: the object stays documented where it is defined
     moved_away = {(r['D'], r['x']) for r in P.reexports(case)}
     for r in P.reexports(case, kept=True):
@@ -160,7 +167,7 @@ def oracle_one(case: Any, dump: Any) -> List[Dict[str, Any]]:
                     if ent is None or ent[5] is None or pos >= len(ent[5]):
                         continue
                     if ent[5][pos] != expected:
-                        fails.append({'kind': 'base', 'via': via, 'moved_class': bool(rr),
+                        fails.append({'kind': 'base', 'via': via, 'moved_class': bool(rr), 'before_R': before(mi, r),
                                       'what': 'base %r of class %s.%s (%s)%s resolves to %r, not to %s'
                                               % (b, fn[mi], st[1], via, ', a class that is itself moved by a re-export,' if rr else '',
                                                  ent[5][pos], expected)})
@@ -175,7 +182,7 @@ def oracle_one(case: Any, dump: Any) -> List[Dict[str, Any]]:
                 continue
             for ch, idx in (('resolveName', 1), ('link_to', 2), ('xref', 3)):
                 if ans[idx] != expected:
-                    fails.append({'kind': ch, 'via': via, 'what': '%s(%r) in %s (%s) gives %r, not %s'
+                    fails.append({'kind': ch, 'via': via, 'before_R': before(mi, r), 'what': '%s(%r) in %s (%s) gives %r, not %s'
                                   % (ch, q[1], q[0], via, ans[idx], expected)})
             if q[1] == old and ans[4] != [1, new]:
                 fails.append({'kind': 'find_object', 'via': 'attr-D', 'what': 'find_object(%r) gives %r, not %s' % (q[1], ans[4], new)})
@@ -188,8 +195,9 @@ def oracle_one(case: Any, dump: Any) -> List[Dict[str, Any]]:
                 if via is None or via == 'other':
                     continue
                 if target != expected:
-                    fails.append({'kind': 'doclink', 'via': via, 'what': 'L{%s} in the docstring of %s (%s) links to %r, not to %s'
-                                  % (text, key, via, target, expected)})
+                    fails.append({'kind': 'doclink', 'via': via, 'before_R': before(mi, r),
+                                  'what': 'L{%s} in the docstring of %s (%s) links to %r, not to %s'
+                                          % (text, key, via, target, expected)})
     return fails
 
 
@@ -199,7 +207,7 @@ class Check(c06.Check):
     models = {'project': 'XProject.v'}
     want_doclinks = True
     rule = ('the whole C07 domain {re-exporter = package __init__ | sibling module} x {plain, renamed, star import} x {consumer imports from '
-            'D, from R, both, through module aliases} + references by old and new qualified name, under EVERY reachable schedule; plus '
+            'D, from R, both, through module aliases, by a star import of D, by a star import of R} + references by old and new qualified name, under EVERY reachable schedule; plus '
             'corpus (chain re-export, origin lists the name, function re-export through a package, duplicate members) and seeded random '
             'projects with at most one re-exporter per object; non-trivial = the project has a claimed re-export and a reference to it '
             'from another module; distinct by JSON text')
@@ -230,7 +238,7 @@ class Check(c06.Check):
             c = dict(c); c['label'] = label
             out.append(c)
         self.exhaustive = True
-        self.stats['exhaustive_bound'] = 're-export matrix 2 x 3 x 4 (24 projects), every reachable schedule'
+        self.stats['exhaustive_bound'] = 're-export matrix 2 x 3 x 6 (36 projects), every reachable schedule'
         nrand = 2500 if thorough else 130
         n = 0
         while n < nrand:
@@ -273,7 +281,11 @@ class Check(c06.Check):
         by = {k['id']: k for k in known}
         fails = v.observed['fails']
         def stale(f: Any) -> bool:
-            return f['via'] in KNOWN_VIAS and f['kind'] in ('base', 'resolveName', 'link_to', 'xref', 'doclink')
+            # `from D import x`: always the literal D.x ; `from D import *`: the literal D.x only when the star import
+            # ran before the re-exporter moved the object (afterwards _importAll copies D's alias, i.e. the new name)
+            if f['kind'] not in ('base', 'resolveName', 'link_to', 'xref', 'doclink'):
+                return False
+            return f['via'] == 'from-D' or (f['via'] == 'star-D' and f.get('before_R') is True)
 
         def rescoped(f: Any) -> bool:
             return f['kind'] == 'base' and f.get('moved_class') is True
